@@ -26,12 +26,14 @@ class Recorder:
         self.ev = []
 
     def append(self, c):
+        exc = ""
         try:
             self.mgr.append(mk(c))
             ok = True
-        except RuntimeError:
+        except Exception as ex:  # noqa: BLE001  (the documented refusal is a RuntimeError)
             ok = False
-        self.ev.append({"ev": "append", "c": c, "accepted": ok, "n": len(self.mgr._configs)})
+            exc = type(ex).__name__
+        self.ev.append({"ev": "append", "c": c, "accepted": ok, "n": len(self.mgr._configs), "exc": exc})
         return ok
 
     def next(self):
@@ -183,6 +185,10 @@ def call_stan(a, via_builder=False):
             if not via_builder:
                 raise
             return True, None
+        except _Hang:
+            raise
+        except Exception as ex:  # noqa: BLE001  (neither of the documented refusals: reported, not swallowed)
+            return "unexpected:" + type(ex).__name__, None
     finally:
         signal.setitimer(signal.ITIMER_REAL, 0)
         signal.signal(signal.SIGALRM, old)
@@ -208,7 +214,8 @@ def stan_trace(a, with_chunk=False, via_builder=False):
     epochs are handed out, and (optionally) the EngineBuilder's chunk is read."""
     raised, out = call_stan(a, via_builder)
     r = Recorder()
-    ev = {"ev": "stan", "args": a, "raised": raised, "via_builder": via_builder}
+    ev = {"ev": "stan", "args": a, "raised": bool(raised), "via_builder": via_builder,
+          "unexpected": raised if isinstance(raised, str) else ""}
     if not raised:
         ev["out"] = [cfg_rec(c.type, c.duration, c.thinning) for c in out]
         ev["admissible"] = py_admissible(a, out)
